@@ -1,6 +1,11 @@
 import Mdsort.Bytes
 import Mdsort.Model.Decode
 import Mdsort.Spec.Decode
+import Mdsort.Model.Header
+import Mdsort.Model.Mime
+import Mdsort.Model.MimeEntity
+import Mdsort.Spec.Message
+import Mdsort.Spec.Mime
 
 /-!
 Line-protocol driver: one request per line `<side> <op> <hexarg>*`, one response
@@ -41,6 +46,80 @@ def optHex : Option Bytes → String
   | none => "NONE"
   | some b => "OK " ++ toHex b
 
+def dumpTable (m : Model.Msg) : String :=
+  String.join (m.headers.map fun h => s!"{h.id}:{toHex h.key}:{toHex h.val},") ++ "|" ++ toHex m.body
+
+def dumpValues : Option (List Bytes) → String
+  | none => "NONE"
+  | some vs => "V" ++ String.join (vs.map fun v => "," ++ toHex v)
+
+def dumpBody : Option Bytes → String
+  | none => "NONE"
+  | some b => "B" ++ toHex b
+
+def applySets (m : Model.Msg) : List Bytes → Model.Msg
+  | k :: v :: rest => applySets (Model.setHeader m k v) rest
+  | _ => m
+
+def ctypeTable : String :=
+  String.join ((List.range 256).map fun n =>
+    let c := UInt8.ofNat n
+    let b (x : Bool) := if x then "1" else "0"
+    b (isspace c) ++ b (isdigit c) ++ b (isupper c) ++ b (islower c) ++
+      (toHex [tolower c]) ++ (toHex [toupper c]))
+
+/-- Canonical table dump from the specification's field list: ids by position, stable order by name. -/
+def specTable (fs : List (Bytes × Bytes)) (body : Bytes) : String :=
+  let hs : List Model.Hdr := (fs.zipIdx).map fun (f, i) => { id := i + 1, key := f.1, val := f.2 }
+  dumpTable { headers := Model.sortByKey hs, body := body }
+
+def pairs : List Bytes → List (Bytes × Bytes)
+  | k :: v :: r => (k, v) :: pairs r
+  | _ => []
+
+def handleSpec (op : String) (args : List Bytes) : Option String :=
+  match op, args with
+  | "hparse", [m] =>
+    match Spec.read m with
+    | none => some "NOTWF"
+    | some (fs, b) => some (specTable fs b)
+  | "hget", [name, m] =>
+    match Spec.read m with
+    | none => some "NOTWF"
+    | some (fs, _) =>
+      let vs := Spec.headerValues fs name
+      some (if vs.isEmpty then "NONE" else dumpValues (some vs))
+  | "hsetcheck", out :: m :: _probe :: kvs =>
+    match Spec.read m with
+    | none => some "NOTWF"
+    | some _ => some (if Spec.rewriteOk m (pairs kvs) out then "OK" else "BAD")
+  | "parts", [m] =>
+    let e := Model.parseMessage m
+    match Spec.parts Model.entity (Gen.mimeDepthLimit + 1) e with
+    | none => some "NONE"
+    | some ps => some (s!"P{ps.length}" ++ String.join (ps.map fun p => " " ++ dumpTable p ++ "|" ++ dumpBody (Spec.decodedBody Model.entity Gen.mimeDepthLimit p)))
+  | "body", [m] => some (dumpBody (Spec.decodedBody Model.entity Gen.mimeDepthLimit (Model.parseMessage m)))
+  | "unfold", [v] => some (toHex (Spec.unfold v))
+  | _, _ => none
+
+def handleMsg (side op : String) (args : List Bytes) : Option String :=
+  match side, op, args with
+  | "M", "hparse", [m] => some (dumpTable (Model.parseMessage m))
+  | "M", "hget", [name, m] => some (dumpValues (Model.getHeader (Model.parseMessage m) name))
+  | "M", "hset", m :: probe :: kvs =>
+    let msg := applySets (Model.parseMessage m) kvs
+    let (out, msg') := Model.messageWrite msg
+    let (out2, _) := Model.messageWrite msg'
+    some (toHex out ++ " " ++ dumpValues (Model.getHeader msg' probe) ++ " " ++ toHex out2)
+  | "M", "parts", [m] =>
+    match Model.getAttachments (Model.parseMessage m) with
+    | none => some "NONE"
+    | some ps => some (s!"P{ps.length}" ++ String.join (ps.map fun p => " " ++ dumpTable p ++ "|" ++ dumpBody (Model.getBody p)))
+  | "M", "body", [m] => some (dumpBody (Model.getBody (Model.parseMessage m)))
+  | "M", "unfold", [v] => some (toHex (Model.unfoldHeader v))
+  | "M", "ctype", [] => some ctypeTable
+  | _, _, _ => none
+
 def handle (side op : String) (args : List String) : String :=
   match side, op, args.mapM fromHex with
   | _, _, none => "BADHEX"
@@ -57,7 +136,14 @@ def handle (side op : String) (args : List String) : String :=
   | "M", "b64n", some [s, n] => optHex (Model.b64pton s n.length)
   | "M", "r2047", some [s] => toHex (Model.rfc2047Decode s)
   | "S", "r2047", some [s] => toHex (cstr (Spec.rfc2047 s))
-  | _, _, _ => "BADOP"
+  | "S", _, some as =>
+    match handleSpec op as with
+    | some r => r
+    | none => "BADOP"
+  | _, _, some as =>
+    match handleMsg side op as with
+    | some r => r
+    | none => "BADOP"
 
 partial def loop (h : IO.FS.Stream) (out : IO.FS.Stream) : IO Unit := do
   let line ← h.getLine
